@@ -25,8 +25,8 @@ def run(tier):
   rep.assumptions = ['invalid scope arguments are drawn from a fixed pool (bad name, int, list with bad name, '
                      'object whose truth test raises, empty component, float)']
   cc.model_check(rep, 'MC_Scopes_quick')
-  n = 300 if tier == 'quick' else 4000
-  cc.replay_behaviours(rep, 'GinCore_Sim_scopes', num=n, depth=16, nontrivial=_nontrivial)
+  n = 200 if tier == 'quick' else 4000
+  cc.replay_behaviours(rep, 'GinCore_Sim_scopes', num=n, depth=16, nontrivial=_nontrivial, generate=n * 6)
   try:
     from ginverif.checks import c09_threads
     c09_threads.run_into(rep, tier)
